@@ -164,6 +164,8 @@ pub struct Sim {
     /// run profile (pointwise tie coverage): 0 none, 1 flow control, 2 transfer + membership,
     /// 3 snapshots, 4 reads: a quarter of the random events come from the profile's own list
     pub focus: u8,
+    /// number of nodes (set at boot)
+    pub nodes_len_hint: u64,
     /// message of the most recent panic of any node
     pub last_panic: Option<String>,
     pub pt: crate::ptrace::PTrace,
@@ -201,7 +203,7 @@ pub fn call_kind(c: &Call) -> &'static str {
 
 impl Sim {
     pub fn new(seed: u64, rec: Recorder) -> Sim {
-        Sim { nodes: vec![], net: vec![], rng: Rng::new(seed), rec, next_payload: 1, archive: vec![], max_log: 12, trace: vec![], keep_trace: false, trace_tail: 60, run_id: seed, trace_len: 0, mon: None, halted: false, quiet: false, extra_steps: false, adversarial: false, force_prevote_cq: false, force_sim_snap: false, voter_campaign_only: false, fixed_conf: false, focus: 0, last_panic: None, pt: Default::default() }
+        Sim { nodes: vec![], net: vec![], rng: Rng::new(seed), rec, next_payload: 1, archive: vec![], max_log: 12, trace: vec![], keep_trace: false, trace_tail: 60, run_id: seed, trace_len: 0, mon: None, halted: false, quiet: false, extra_steps: false, adversarial: false, force_prevote_cq: false, force_sim_snap: false, voter_campaign_only: false, fixed_conf: false, focus: 0, nodes_len_hint: 0, last_panic: None, pt: Default::default() }
     }
 
     /// A cluster of the given shape with the given per-node configuration (scripted scenarios).
@@ -309,6 +311,7 @@ impl Sim {
     }
 
     pub fn start(&mut self, i: usize) {
+        self.nodes_len_hint = self.nodes.len() as u64;
         let n = &mut self.nodes[i];
         let mut cfg = n.cfg.clone();
         cfg.applied = n.applied;
@@ -348,11 +351,30 @@ impl Sim {
                     }
                     _ => c2.max_apply_unpersisted_log_limit = self.rng.below(4),
                 }
+                // sometimes the stored hard state is perturbed instead: a vote for any id (a learner,
+                // a node that is not (yet) in the stored configuration, nobody) at the stored or a
+                // higher term, in a private copy of the storage rebuilt from the durable operations
+                let mut store2 = n.sstore.clone();
+                if self.rng.chance(1, 3) {
+                    c2 = cfg.clone();
+                    let fresh = MemStorage::new_with_conf_state(n.init_cs.clone());
+                    for op in &n.durable_ops {
+                        apply_op(&fresh, op);
+                    }
+                    let mut hs = fresh.initial_state().unwrap().hard_state;
+                    hs.vote = self.rng.below(self.nodes_len_hint + 3);
+                    hs.term += self.rng.below(2);
+                    fresh.wl().set_hardstate(hs);
+                    let s2 = SimStorage::new(fresh, n.sim_snap);
+                    s2.set_applied(n.applied.min(s2.mem.last_index().unwrap()));
+                    c2.applied = s2.applied();
+                    store2 = s2;
+                }
                 raft::verif_raft::set_timeout_seed(Some(self.rng.next() | 1));
-                let st2 = n.sstore.clone();
+                let st2 = store2.clone();
                 let r2 = catch(|| RawNode::new(&c2, st2, &logger()));
                 let d2: Vec<u64> = raft::verif_raft::take_draws().into_iter().map(|x| x as u64).collect();
-                let (case_line, impl_line) = new_case(&c2, &n.sstore, &d2, &r2);
+                let (case_line, impl_line) = new_case(&c2, &store2, &d2, &r2);
                 let o = CallOutcome { case_line, impl_line, panicked: None, ret_code: 0, ready: None, light: None, conf_state: None, flag: false };
                 let meta = format!("new-perturbed {} {}", c2.applied, match &r2 { Ok(Ok(_)) => "ok", Ok(Err(_)) => "err", Err(_) => "panic" });
                 self.rec.put(&o, &meta);
